@@ -164,7 +164,7 @@ package leader
 //@   on call Metrics.IncFailures as c assert C13+C18.metric_labels_are_the_declared_ones: keysWithin(c.labels, "role", "instance_id", "bucket", "error_type")
 //@   on call Metrics.IncAcquireAttempts as c assert C13+C18.metric_labels_are_the_declared_ones: keysWithin(c.labels, "role", "instance_id", "bucket", "status")
 //@   on call Metrics.ObserveHeartbeatDuration as c assert C13+C18.metric_labels_are_the_declared_ones: keysWithin(c.labels, "role", "instance_id", "bucket", "status")
-//@   on call wg.Add assert C20+C09.wait_group_grows_under_the_mutex_or_on_a_tracked_goroutine: (nheld(kvElection.mu) >= 1 && e.stopsWaiting == 0) || caller.onTrackedGoroutine
+//@   on call wg.Add assert C20+C09+C11.wait_group_grows_under_the_mutex_or_on_a_tracked_goroutine: (nheld(kvElection.mu) >= 1 && e.stopsWaiting == 0) || caller.onTrackedGoroutine
 //@   on call kvElection.onDemote assert C08+C09+C11+C13+C03+C06+C04+C12.callbacks_run_outside_the_mutex: nheld(kvElection.mu) == 0
 //@   on call kvElection.onPromote assert C08+C09+C13+C03+C06.callbacks_run_outside_the_mutex: nheld(kvElection.mu) == 0
 //@   on unlock kvElection.mu assert C18+C19.gauge_follows_claim: $gaugeFresh
@@ -189,7 +189,7 @@ package leader
 //@ iface KeyValue.Update(key, value, rev, opts)
 //@   requires C01.key_is_group: key == e.key
 //@   requires C06+C07+C10+C02+C03.record_lease_is_the_configured_ttl: eachDuration(opts, e.cfg.TTL)
-//@   requires C01+C10+C05+C07+C13+C02.update_is_refresh_or_takeover: Refresh(e, value, rev) || Takeover(e, value, rev)
+//@   requires C01+C10+C05+C07+C13+C02+C09.update_is_refresh_or_takeover: Refresh(e, value, rev) || Takeover(e, value, rev)
 //@   assumes result1 == nil ==> Own(result0) && result0 > rev && PubTok(result0) == TokenOf(value) && PubID(result0) == IDOf(value) && OwnTok(TokenOf(value))
 
 //@ iface KeyValue.Get(key)
@@ -551,7 +551,7 @@ package leader
 //@   ghost tkEntry Int = 0
 //@   on ret KeyValue.Get as g when g.result1 == nil set tkEntry = g.result0
 //@   on call KeyValue.Update as c assert C10+C05.update_carries_own_payload: c.value == payloadBytes
-//@   ensures C10+C06+C13.nil_result_means_takeover: result == nil ==> calls(becomeLeader) == 1
+//@   ensures C10+C06+C13+C17.nil_result_means_takeover: result == nil ==> calls(becomeLeader) == 1
 //@   ensures C10+C01+C13.refuses_only_equal_or_higher: tkEntry != 0 && ParseOK(EntryVal(tkEntry)) && e.cfg.Priority > PrioOf(EntryVal(tkEntry)) ==> calls(KeyValue.Update) == 1
 
 //@ func (e *kvElection) becomeLeader(token, rev)
@@ -563,7 +563,7 @@ package leader
 //@   ghost tokStored Bool = false
 //@   on lock kvElection.mu set wasLeaderAtLock = e.isLeader
 //@   on lock kvElection.mu set promoteSet = e.onPromote != nil
-//@   on store kvElection.isLeader as s assert C08+C03+C19.promote_from_non_leader: s.value ==> !wasLeaderAtLock
+//@   on store kvElection.isLeader as s assert C08+C03+C19+C18.promote_from_non_leader: s.value ==> !wasLeaderAtLock
 //@   on store kvElection.token as s assert C05+C02.term_token_is_published_token: s.value == token
 //@   on store kvElection.token set tokStored = true
 //@   on store kvElection.revision as s assert C01+C05.token_before_revision: tokStored && s.value == rev
@@ -592,11 +592,11 @@ package leader
 //@   on lock kvElection.mu set stateL = e.state
 //@   on lock kvElection.mu set ctxNilL = e.ctx == nil
 //@   on store kvElection.isLeader as s when s.value set claimed = true
-//@   ensures C08.promote_once: scalls(onPromote) == ((claimed && promoteSet) ? 1 : 0)
-//@   ensures C08.promotion_goroutine_calls_back: scalls(onPromote) == ((claimed && promoteSet) ? 1 : 0)
+//@   ensures C08+C18.promote_once: scalls(onPromote) == ((claimed && promoteSet) ? 1 : 0)
+//@   ensures C08+C18.promotion_goroutine_calls_back: scalls(onPromote) == ((claimed && promoteSet) ? 1 : 0)
 //@   ensures C09+C19.no_promote_after_stop: stateL == "STOPPED" || ctxNilL ==> !claimed && scalls(heartbeatLoop) == 0 && scalls(validationLoop) == 0 && scalls(onPromote) == 0
 //@   ensures C02+C06+C03+C07+C19.claims_when_running: stateL != "STOPPED" && !ctxNilL && !wasLeaderAtLock ==> claimed && scalls(heartbeatLoop) == 1 && scalls(validationLoop) == 1
-//@   ensures C03+C05+C07+C08+C19.no_second_term_on_top_of_a_term: wasLeaderAtLock ==> !claimed && scalls(heartbeatLoop) == 0 && scalls(validationLoop) == 0 && scalls(onPromote) == 0
+//@   ensures C03+C05+C07+C08+C19+C18.no_second_term_on_top_of_a_term: wasLeaderAtLock ==> !claimed && scalls(heartbeatLoop) == 0 && scalls(validationLoop) == 0 && scalls(onPromote) == 0
 
 // becomeFollower() and settleAsFollower() are thin unexported wrappers: always inlined into
 // their callers (where the caller's justification is known), never verified on their own.
@@ -627,7 +627,7 @@ package leader
 //@   on store kvElection.isLeader assert C07+C08+C03+C18+C19+C13.settling_never_clears_a_claim: unlessLeader ==> !cleared
 //@   ensures C07.settling_reports_nothing_cleared: unlessLeader ==> !result
 //@   ensures C08+C03+C19+C04+C13.reports_cleared: !unlessLeader ==> result == cleared
-//@   ensures C19.cancelled_on_demotion: cleared && !unlessLeader ==> termCancelled
+//@   ensures C19+C13.cancelled_on_demotion: cleared && !unlessLeader ==> termCancelled
 //@   ghost stateL Int = 0
 //@   on lock kvElection.mu set stateL = e.state
 //@   ensures C06.failed_round_rearms: stateL != "STOPPED" && !(unlessLeader && cleared) && ctxSeen && !watcherSeen ==> scalls(watchLoop) == 1
@@ -662,7 +662,7 @@ package leader
 //@   on return assert C20+C09.stop_wait_is_closed: stopsAnnouncedHere == 0
 //@   on select as s assert C09.stop_waits_time_boxed: s.blocking ==> s.hasAfter
 //@   on call time.After as a assert C09.stop_wait_bound: a.d > 0 && a.d <= 5000000000
-//@   ensures C08.demote_iff_claim_cleared: !ctxNilL ==> (wasLeaderL ? (calls(onDemote) == 1 || (calls(onDemote) == 0 && demoteNilSeen)) : calls(onDemote) == 0)
+//@   ensures C08+C19.demote_iff_claim_cleared: !ctxNilL ==> (wasLeaderL ? (calls(onDemote) == 1 || (calls(onDemote) == 0 && demoteNilSeen)) : calls(onDemote) == 0)
 //@   ensures C09.second_stop: ctxNilL ==> result == ErrAlreadyStopped && calls(cancel) == 0 && calls(onDemote) == 0
 //@   ensures C09.stop_cancels: !ctxNilL ==> result == nil
 //@   ensures C09+C18.stop_waits_for_the_goroutines: !ctxNilL ==> scalls(wg.Wait) == 1
@@ -713,7 +713,7 @@ package leader
 //@   on ret Context.Deadline as d when d.ctx == ctx set dlOK = d.result1
 //@   on ret time.Until as u set untilRes = u.result
 //@   on call time.After as a assert C09.stop_with_context_wait_bound: a.d == (opts.Timeout != 0 ? opts.Timeout : (dlOK ? untilRes : 5000000000))
-//@   ensures C08.demote_iff_claim_cleared: result == nil && !ctxNilL ==> (wasLeaderL ? (calls(onDemote) + scalls(onDemote) == 1 || (calls(onDemote) + scalls(onDemote) == 0 && demoteNilSeen)) : calls(onDemote) + scalls(onDemote) == 0)
+//@   ensures C08+C19.demote_iff_claim_cleared: result == nil && !ctxNilL ==> (wasLeaderL ? (calls(onDemote) + scalls(onDemote) == 1 || (calls(onDemote) + scalls(onDemote) == 0 && demoteNilSeen)) : calls(onDemote) + scalls(onDemote) == 0)
 //@   ghost firstDel Bool = true
 //@   ghost refused Bool = false
 //@   ghost reread Bool = false
@@ -728,7 +728,7 @@ package leader
 //@   on ret KeyValue.Get as g set rereadOurs = g.result1 == nil && g.result0 != nil && ParseOK(EntryVal(g.result0)) && IDOf(EntryVal(g.result0)) == e.cfg.InstanceID && TokenOf(EntryVal(g.result0)) == tokSeen && tokSeen != ""
 //@   on call KeyValue.Get assert C09+C01.the_record_is_read_again_only_after_a_refused_delete: refused
 //@   ensures C09.delete_issued: result == nil && !ctxNilL && opts.DeleteKey && wasLeaderL ==> calls(KeyValue.Delete) + calls(RevisionDeleter.DeleteRevision) >= 1
-//@   ensures C09.the_record_is_gone_when_a_stop_with_delete_returns: result == nil && !ctxNilL && opts.DeleteKey && wasLeaderL && refused ==> reread && (rereadOurs ==> calls(RevisionDeleter.DeleteRevision) == 2)
+//@   ensures C09+C01.the_record_is_gone_when_a_stop_with_delete_returns: result == nil && !ctxNilL && opts.DeleteKey && wasLeaderL && refused ==> reread && (rereadOurs ==> calls(RevisionDeleter.DeleteRevision) == 2)
 //@   ensures C01+C02+C07.delete_issued_at_most_once: calls(KeyValue.Delete) + scalls(KeyValue.Delete) + calls(RevisionDeleter.DeleteRevision) + scalls(RevisionDeleter.DeleteRevision) <= ((refused && rereadOurs) ? 2 : 1)
 //@   ghost released Bool = false
 //@   on ret KeyValue.Delete set released = true
@@ -779,7 +779,7 @@ package leader
 //@   ghost n Int = 0
 //@   on load kvElection.token as l set v = l.value
 //@   on load kvElection.token set n = n + 1
-//@   ensures C05.token_accessor: n == 1 && result == v
+//@   ensures C05+C09.token_accessor: n == 1 && result == v
 //@ func (e *kvElection) LeaderID()
 //@   tags C18
 //@   flag inline
@@ -806,7 +806,7 @@ package leader
 //@   on recv local as r set ent = r.value.entry
 //@   on recv local as r set entErr = r.value.err
 //@   on recv local set got = true
-//@   ensures C04+C11+C13.sound: result0 ==> got && entErr == nil && ent != nil && FromGet(ent) && ntok == 1 && tok != "" &&
+//@   ensures C04+C11+C13+C05.sound: result0 ==> got && entErr == nil && ent != nil && FromGet(ent) && ntok == 1 && tok != "" &&
 //@        ParseMapOK(EntryVal(ent)) &&
 //@        maphas(ParseMap(EntryVal(ent)), "token") && istype(mapget(ParseMap(EntryVal(ent)), "token"), string) && pay(mapget(ParseMap(EntryVal(ent)), "token")) == tok &&
 //@        maphas(ParseMap(EntryVal(ent)), "id") && istype(mapget(ParseMap(EntryVal(ent)), "id"), string) && pay(mapget(ParseMap(EntryVal(ent)), "id")) == e.cfg.InstanceID
@@ -907,7 +907,7 @@ package leader
 //@   on load kvElection.revision set revLoaded = true
 //@   on load kvElection.token as l assert C01+C05+C07.revision_before_token: revLoaded
 //@   on load kvElection.token as l set lastTok = l.value
-//@   on call json.Marshal as m assert C05+C07+C02+C01+C10.heartbeat_payload: m.v.ID == e.cfg.InstanceID && m.v.Token == lastTok && m.v.Priority == e.cfg.Priority
+//@   on call json.Marshal as m assert C05+C07+C02+C01+C10+C09.heartbeat_payload: m.v.ID == e.cfg.InstanceID && m.v.Token == lastTok && m.v.Priority == e.cfg.Priority
 //@   on call time.After as a assert C03+C07.timeout_value: a.d > 0 && 2 * a.d >= e.cfg.HeartbeatInterval - 1 && a.d <= max(e.cfg.HeartbeatInterval / 2, 1000000000)
 //@   on select as s assert C03+C07+C09+C18+C19.every_wait_of_the_refresh_loop_ends_with_the_term: s.blocking ==> s.hasDone && s.doneCtx == ctx
 //@   on call KeyValue.Update assert C03.attempt_time_boxed: inspawn()
@@ -952,9 +952,9 @@ package leader
 //@   on call becomeFollower set demote_cause = err != nil
 //@   on ret becomeFollower as r set cleared = r.result
 //@   on load kvElection.onDemote as l set demoteSet = l.value != nil
-//@   ensures C03+C02+C13.demotes: calls(becomeFollower) == 1
+//@   ensures C03+C02+C13+C08.demotes: calls(becomeFollower) == 1
 //@   ensures C03+C08.runs_demote_callback: cleared && demoteSet ==> calls(onDemote) == 1
-//@   ensures C08+C03.demote_iff_claim_cleared: calls(onDemote) == ((cleared && demoteSet) ? 1 : 0)
+//@   ensures C08+C03+C19.demote_iff_claim_cleared: calls(onDemote) == ((cleared && demoteSet) ? 1 : 0)
 
 //@ func (e *kvElection) handleRunCancelled(ctx)
 //@   tags C03 C02 C08 C07 C20
@@ -972,7 +972,7 @@ package leader
 //@   on load kvElection.onDemote as l set demoteSet = l.value != nil
 //@   ensures C03+C02+C19+C09.cancelled_run_ends_its_term: runDead ==> calls(becomeFollower) == 1
 //@   ensures C07+C08.live_run_left_alone: !runDead ==> calls(becomeFollower) == 0 && calls(onDemote) == 0
-//@   ensures C08+C03.demote_iff_claim_cleared: calls(onDemote) == ((cleared && demoteSet) ? 1 : 0)
+//@   ensures C08+C03+C19.demote_iff_claim_cleared: calls(onDemote) == ((cleared && demoteSet) ? 1 : 0)
 
 //@ func (e *kvElection) handleHealthCheckFailure()
 //@   tags C12 C08 C07
@@ -984,9 +984,9 @@ package leader
 //@   on ret becomeFollower as r set cleared = r.result
 //@   on load kvElection.onDemote as l set demoteSet = l.value != nil
 //@   on store kvElection.healthFailureCount assert C12.the_failure_handler_leaves_the_count_alone: false
-//@   ensures C12.demotes: calls(becomeFollower) == 1
+//@   ensures C12+C08.demotes: calls(becomeFollower) == 1
 //@   ensures C12+C08.runs_demote_callback: cleared && demoteSet ==> calls(onDemote) == 1
-//@   ensures C08+C12.demote_iff_claim_cleared: calls(onDemote) == ((cleared && demoteSet) ? 1 : 0)
+//@   ensures C08+C12+C19.demote_iff_claim_cleared: calls(onDemote) == ((cleared && demoteSet) ? 1 : 0)
 
 // ===========================================================================
 // fencing.go  (C04)
@@ -1003,7 +1003,7 @@ package leader
 //@   ghost hvfCalled Bool = false
 //@   on recv ticker set ran = false
 //@   on recv ticker set hvfCalled = false
-//@   on call validateToken as c assert C04.validation_time_boxed: origin(c.ctx, "ctx:derived") && CtxTimeout(c.ctx) > 0 && CtxTimeout(c.ctx) <= max(e.cfg.HeartbeatInterval / 2, 2000000000) && CtxParent(c.ctx) == ctx
+//@   on call validateToken as c assert C04+C07.validation_time_boxed: origin(c.ctx, "ctx:derived") && CtxTimeout(c.ctx) > 0 && CtxTimeout(c.ctx) <= max(e.cfg.HeartbeatInterval / 2, 2000000000) && CtxParent(c.ctx) == ctx
 //@   on call validateToken as c assert C07.validation_outlasts_a_fault_free_read: 2 * CtxTimeout(c.ctx) >= e.cfg.HeartbeatInterval - 1
 //@   on ret validateToken as r set lastErr = r.result1
 //@   on ret validateToken as r set lastValid = r.result0
@@ -1025,9 +1025,9 @@ package leader
 //@   on call becomeFollower set demote_cause = true
 //@   on ret becomeFollower as r set cleared = r.result
 //@   on load kvElection.onDemote as l set demoteSet = l.value != nil
-//@   ensures C04.demotes: calls(becomeFollower) == 1
+//@   ensures C04+C08.demotes: calls(becomeFollower) == 1
 //@   ensures C04+C08.runs_demote_callback: cleared && demoteSet ==> calls(onDemote) == 1
-//@   ensures C08+C04.demote_iff_claim_cleared: calls(onDemote) == ((cleared && demoteSet) ? 1 : 0)
+//@   ensures C08+C04+C19.demote_iff_claim_cleared: calls(onDemote) == ((cleared && demoteSet) ? 1 : 0)
 
 // ===========================================================================
 // watcher.go  (C06, C07, C10, C13)
@@ -1130,7 +1130,7 @@ package leader
 //@   ensures C13.ignore_unparsable: entry != nil && LenOf(EntryVal(entry)) != 0 && !ParseOK(EntryVal(entry)) ==> calls(becomeFollower) == 0 && scalls(attemptAcquire) == 0
 //@   ghost demoteSet Bool = false
 //@   on load kvElection.onDemote as l set demoteSet = l.value != nil
-//@   ensures C08+C13+C03.demote_iff_claim_cleared: calls(onDemote) == ((cleared && demoteSet) ? 1 : 0)
+//@   ensures C08+C13+C03+C19.demote_iff_claim_cleared: calls(onDemote) == ((cleared && demoteSet) ? 1 : 0)
 
 // ===========================================================================
 // connection.go  (C11)
@@ -1171,7 +1171,7 @@ package leader
 //@   ensures C11.expiry_demotes: isCurrent && (d.election.connectionMonitor == nil || (statusSeen != 0 && statusSeen != 2)) && sawLeader ==> calls(becomeFollower) == 1 && (demoteSet ==> calls(onDemote) == 1)
 //@   ensures C11.no_demotion_if_reconnected: d.election.connectionMonitor != nil && (statusSeen == 0 || statusSeen == 2) ==> calls(becomeFollower) == 0 && calls(onDemote) == 0
 //@   ensures C11+C08.no_demotion_if_not_leader: !sawLeader ==> calls(becomeFollower) == 0 && calls(onDemote) == 0
-//@   ensures C08+C11.demote_iff_claim_cleared: calls(onDemote) == ((cleared && demoteSet) ? 1 : 0)
+//@   ensures C08+C11+C19.demote_iff_claim_cleared: calls(onDemote) == ((cleared && demoteSet) ? 1 : 0)
 
 //@ func (d *disconnectHandler) stop()
 //@   tags C11 C20
@@ -1223,7 +1223,7 @@ package leader
 //@   ensures C11.failed_verification_consults_the_claim: looked
 //@   ensures C11.failed_verification_demotes: sawLeader ==> calls(becomeFollower) == 1 && (demoteSet ==> calls(onDemote) == 1)
 //@   ensures C11+C08.no_demotion_if_not_leader: !sawLeader ==> calls(becomeFollower) == 0 && calls(onDemote) == 0
-//@   ensures C08+C11.demote_iff_claim_cleared: calls(onDemote) == ((cleared && demoteSet) ? 1 : 0)
+//@   ensures C08+C11+C19.demote_iff_claim_cleared: calls(onDemote) == ((cleared && demoteSet) ? 1 : 0)
 
 // monitor
 //@ func (m *natsConnectionMonitor) Start(ctx)
@@ -1343,7 +1343,7 @@ package leader
 //@   on ret nats.KeyValue.Watch as c set r0 = c.result0
 //@   on ret nats.KeyValue.Watch as c set r1 = c.result1
 //@   ensures C14+C07+C13.watch_passthrough: calls(nats.KeyValue.Watch) == 1
-//@   ensures C14.watch_result: result1 == r1 && (r1 == nil ==> result0 != nil && istype(result0, *natsWatcherAdapter) && result0.(*natsWatcherAdapter).watcher == r0)
+//@   ensures C14+C07.watch_result: result1 == r1 && (r1 == nil ==> result0 != nil && istype(result0, *natsWatcherAdapter) && result0.(*natsWatcherAdapter).watcher == r0)
 
 //@ func (a *natsEntryAdapter) Value()
 //@   tags C14
